@@ -123,6 +123,20 @@ def check_system(s: Any, proj: Dict[str, Any], meta: Dict[str, Any], order_desc:
             mk = by_id.get('ID:%d.%s' % (d['id'], mname), [])
             if mk != [want + '.' + mname]:
                 out.append(('member-registration', '%s: member %s of %s is registered as %s, expected %s' % (order_desc, mname, name, mk, [want + '.' + mname])))
+    # nested members are reachable by both the new and (through the alias left behind) the old qualified name
+    for name, d in meta['defs'].items():
+        obj = target.get(name)
+        if obj is None or not rexproj.exporter_of(proj, name):
+            continue
+        for mname in d['members']:
+            want = obj.fullName() + '.' + mname
+            for q in (want, 'p.%s.%s.%s' % (d['mod'], name, mname)):
+                try:
+                    got = s.find_object(q)
+                except LookupError:
+                    got = None
+                if got is None or got.fullName() != want:
+                    out.append(('member-lookup', '%s: System.find_object(%r) gives %r, the member is documented as %s' % (order_desc, q, got, want)))
     for c in meta['checks']:
         obj = target.get(c['obj'])
         if obj is None:
